@@ -337,7 +337,28 @@ def _literal(rng, script, backslash):
     return "'%s'" % body
 
 
-def gen_sql(rng, script='ascii', backslash=False, nstmts=None):
+_MULTILINE = [
+    "/* first;\nsecond */ ", "/*\n * boxed; comment\n */\n",
+]
+
+
+def _multiline_piece(rng, script):
+    """A token that spans a line break (and contains a semicolon): anything
+    that cuts its input at line or block boundaries splits it."""
+    r = rng.random()
+    word = {'ascii': 'x', 'latin': 'é', 'l1': 'ñ', 'cyr': 'ж',
+            'cjk': '値'}[script]
+    if r < 0.3:
+        return "'%s one;\n two %s'" % (word, word)
+    if r < 0.5:
+        return '"%s\n%s"' % (word, word)
+    if r < 0.75:
+        return "$$ begin;\n %s;\nend $$" % word
+    return "$tag$ %s;\n\n %s $tag$" % (word, word)
+
+
+def gen_sql(rng, script='ascii', backslash=False, nstmts=None,
+            multiline=0.2):
     """A small multi-statement script; *script* selects the alphabet of
     identifiers/literals/comments."""
     n = nstmts or rng.choice([1, 1, 2, 3])
@@ -378,6 +399,18 @@ def gen_sql(rng, script='ascii', backslash=False, nstmts=None):
                 _ident(rng, mix()), _literal(rng, mix(), backslash),
                 _literal(rng, mix(), backslash),
                 _literal(rng, mix(), backslash), _ident(rng, mix()))
+        if rng.random() < multiline:
+            k = rng.random()
+            if k < 0.35:
+                s = rng.choice(_MULTILINE) + s
+            elif k < 0.7 and s.lower().startswith('select '):
+                s = s[:7] + _multiline_piece(rng, script) + ', ' + s[7:]
+            elif ' order by ' in s:
+                s = s.replace(' order by ', ' order\nby ')
+            elif ' from ' in s:
+                s = s.replace(' from ', '\nfrom\n', 1)
+            else:
+                s = s + ' ' + rng.choice(_MULTILINE).rstrip()
         if rng.random() < 0.3:
             cm = {'ascii': 'note', 'latin': 'remarque éà', 'l1': 'año ½',
                   'cyr': 'заметка', 'cjk': '注釈'}[script]
